@@ -302,6 +302,14 @@ macro_rules! bech32_hash {
     ($($T:ident),*) => { vec![ $( tp!(concat!(stringify!($T), "::from_bech32"), |i| $T::from_bech32(i).map(|h| { let _ = h.to_bech32("x"); }).is_ok()) ),* ] };
 }
 
+/// the largest char boundary of `s` that is <= k (the harness splits text inputs; the text may hold any UTF-8)
+fn floor_boundary(s: &str, mut k: usize) -> usize {
+    while k > 0 && !s.is_char_boundary(k) {
+        k -= 1;
+    }
+    k
+}
+
 fn extra_text_parsers() -> Vec<TextParser> {
     let mut v = bech32_hash!(AnchorDataHash, AuxiliaryDataHash, BlockHash, DataHash, Ed25519KeyHash, GenesisDelegateHash, GenesisHash, KESVKey, PoolMetadataHash, ScriptDataHash, ScriptHash, TransactionHash, VRFKeyHash, VRFVKey);
     v.extend(vec![
@@ -355,15 +363,15 @@ fn extra_text_parsers() -> Vec<TextParser> {
         }).is_ok()),
         tp!("encode_json_str_to_native_script(Node)", |i| encode_json_str_to_native_script(i, "", ScriptSchema::Node).is_ok()),
         tp!("decrypt_with_password", |i| {
-            let (a, b) = i.split_at(i.len().min(8));
+            let (a, b) = i.split_at(floor_boundary(i, i.len().min(8)));
             decrypt_with_password(a, b).is_ok()
         }),
         tp!("encrypt_with_password", |i| {
             // salt / nonce of any length, data from the input
             let n = i.len();
-            let (a, rest) = i.split_at((n / 4) & !1);
-            let (b, rest) = rest.split_at((rest.len() / 3) & !1);
-            let (c, d) = rest.split_at((rest.len() / 2) & !1);
+            let (a, rest) = i.split_at(floor_boundary(i, (n / 4) & !1));
+            let (b, rest) = rest.split_at(floor_boundary(rest, (rest.len() / 3) & !1));
+            let (c, d) = rest.split_at(floor_boundary(rest, (rest.len() / 2) & !1));
             if a.len() > 200 {
                 return false;
             }
@@ -466,13 +474,63 @@ pub fn direct_input(kind: u8, name: &str, payload: &[u8]) -> Vec<u8> {
     v
 }
 
+/// Seed corpus of the raw-bytes fuzz campaign over `direct`: valid encodings (bytes, and JSON where the type
+/// has it) of every registry type, produced from a few fixed tapes, each wrapped as a `direct` input.
+pub fn direct_seeds(seed: u64) -> Vec<Vec<u8>> {
+    let es: &'static Vec<Entry> = ENTRIES.with(|e| *e);
+    let mut out = Vec::new();
+    for (k, e) in es.iter().enumerate() {
+        for (round, len) in [0usize, 48, 300].iter().enumerate() {
+            let mut state = fp_mix(fp_mix(seed, k as u64), round as u64);
+            let tape: Vec<u8> = (0..*len)
+                .map(|i| {
+                    state = fp_mix(state, i as u64);
+                    state as u8
+                })
+                .collect();
+            let mut g = Gen::new(&tape, 4, 10);
+            let v = match catch(|| (e.make)(&mut g)) {
+                Ok(v) => v,
+                Err(_) => continue,
+            };
+            if let Ok(b) = catch(|| v.to_bytes()) {
+                if b.len() <= 4000 {
+                    let name = BYTE_PARSERS.with(|ps| ps[k].name.clone());
+                    out.push(direct_input(b'B', &name, &b));
+                }
+            }
+            if e.has_json {
+                if let Ok(Some(Ok(j))) = catch(|| v.to_json()) {
+                    if j.len() <= 4000 {
+                        out.push(direct_input(b'T', &format!("{}::from_json", e.name), j.as_bytes()));
+                    }
+                }
+            }
+        }
+    }
+    // one empty payload for every other entry point so the fuzzer knows their names
+    BYTE_PARSERS.with(|ps| {
+        for p in ps.iter().skip(es.len()) {
+            out.push(direct_input(b'B', &p.name, &[]));
+        }
+    });
+    TEXT_PARSERS.with(|ps| {
+        for p in ps.iter() {
+            if !p.name.ends_with("::from_json") {
+                out.push(direct_input(b'T', &p.name, &[]));
+            }
+        }
+    });
+    out
+}
+
 fn run_direct(ctx: &mut Ctx, input: &[u8], filtered: bool) -> CaseResult {
     if input.is_empty() {
         return Ok(());
     }
     let kind = input[0];
-    let z = match input.iter().position(|b| *b == 0) {
-        Some(z) => z,
+    let z = match input.iter().skip(1).position(|b| *b == 0) {
+        Some(z) => z + 1,
         None => return Ok(()),
     };
     let name = String::from_utf8_lossy(&input[1..z]).into_owned();
